@@ -134,7 +134,7 @@ pub fn rand_bytes_utf8ish(rng: &mut Rng) -> Vec<u8> {
 pub fn gen_entry(rng: &mut Rng, n: usize, out: &mut Vec<String>) {
     for i in 0..n / 2 {
         let na = rng.below(9) as usize;
-        let names: Vec<Vec<u8>> = (0..na).map(|k| if rng.chance(1, 10) { b"cn".to_vec() } else { format!("a{}{}", k, if rng.chance(1, 5) { ";binary" } else { "" }).into_bytes() }).collect();
+        let names: Vec<Vec<u8>> = (0..na).map(|k| if rng.chance(1, 10) { b"cn".to_vec() } else if rng.chance(1, 8) { b"member".to_vec() } else { format!("a{}{}", k, if rng.chance(1, 5) { ";binary" } else { "" }).into_bytes() }).collect();
         let attrs: Vec<(Vec<u8>, Vec<Vec<u8>>)> = names.into_iter().map(|nm| {
             let nv = rng.below(7) as usize;
             let mode = rng.below(4);
@@ -371,8 +371,8 @@ fn entry_oracle(t: &StructureTag, e: &SearchEntry) -> Option<String> {
         if std::str::from_utf8(&name).is_err() { return None; }
         let vals = match &parts[1].payload { PL::C(vs) => vs, _ => return None };
         let mut vv = vec![]; for v in vals { match &v.payload { PL::P(x) => vv.push(x.clone()), _ => return None } }
-        if spec.iter().any(|(n, _)| *n == name) { return None; } // repeated attribute names: outside the theorem's domain
-        spec.push((name, vv));
+        // a description may come in several elements (F41): its values are all of theirs, in the order sent
+        if let Some(s) = spec.iter_mut().find(|(n, _)| *n == name) { s.1.extend(vv); } else { spec.push((name, vv)); }
     }
     if e.dn.as_bytes() != &dn[..] { return Some("dn differs from the server's".into()); }
     for (name, vals) in &spec {
